@@ -21,7 +21,8 @@ META = dict(
     level_note="not a listed property; alarms are reported as EXTRA-ALARM, never as VIOLATION. Trusted: TLC; the harness network "
                "(in-order byte pipes; connectionLost may reach a side at any time, after which nothing is delivered to it and its "
                "writes vanish, while bytes it wrote before may still reach the peer); CPython reference counting for the release of "
-               "a RemoteReference. Not covered: login/Avatar/ViewPoint, Cacheable/Copyable flavours, paging, pbanswer=False calls, "
+               "a RemoteReference. Besides callback arguments, return values and bytes on the fake transports the trace carries "
+               "len(Broker.localObjects) and len(Broker.waitingForAnswers) (public attributes; the leak checks need them). Not covered: login/Avatar/ViewPoint, Cacheable/Copyable flavours, paging, pbanswer=False calls, "
                "the banana handshake (done before the trace starts), MAX_BROKER_REFS.",
     design_ref="4 (extensions)",
     rule="case = (objects per side, sequence of driver steps call/deliver/fire/release/lose); distinct = hash of (cfg, events); "
@@ -683,7 +684,7 @@ def build_traces(ctx):
     scen = []
     for k in KINDS:
         scen.append([(1, 0, k, 1 if k in REFKINDS else 0, rng.random() < 0.4)])
-    for _ in range(ctx.pick(10, 120)):
+    for _ in range(ctx.pick(10, 60)):
         nobj = rng.choice([1, 2])
         scen.append([random_call(rng, nobj, 0.4) for _ in range(rng.choice([2, 2, 3]))] + [nobj])
     nsweep = 0
@@ -708,7 +709,7 @@ def build_traces(ctx):
     ctx.extra["sweep_runs"] = nsweep
     ctx.extra["sweep_scenarios"] = len(scen)
     # (C) random schedules
-    for _ in range(ctx.pick(1500, 40000)):
+    for _ in range(ctx.pick(1500, 20000)):
         cfg = {"nobj": rng.choice([1, 2, 2, 3])}
         traces.append(run_ops(cfg, random_ops(rng, rng.randint(5, 45), cfg["nobj"])))
     return traces
